@@ -355,9 +355,9 @@ func (l *commitLog) LatestOffsetBeforeTimestamp(timestamp int64) (int64, error) 
 	var seg *segment
 	if idx == 0 {
 		seg = l.segments[0]
-		// if the given timestamp is before the start of the stream return an
-		// error.
-		if timestamp < seg.FirstWriteTime() {
+		// if the given timestamp is before the start of the stream (or the
+		// stream is empty) return an error.
+		if seg.IsEmpty() || timestamp < seg.FirstWriteTime() {
 			return 0, errors.New("timestamp is before the beginning of the log")
 		}
 	} else {
